@@ -89,6 +89,20 @@ CLAIMS = {
    note=NOTE + "C08: jnp.fft modelled as explicit DFT sums; interpax amplitudes enter as data; float32 identities observed, not proved.",
    technique="Lean 4 theorems (linearity of every renderer/profile/scene over all inputs, induction over catalogues) + render correspondence + float32 identity oracle",
    design="7/C08"),
+ "C09": dict(
+   text=("Proof over ℝ for the exact symmetries of the render model: θ → θ + kπ leaves every renderer's triple unchanged for every integer k and "
+         "every profile type (so the angle reported after wrapping into [0,π) renders the same image — corollary with C19); round sources do "
+         "not depend on θ (pixel, Fourier and real-space kernels; PSF broadening keeps q = 1); the Sersic/Gaussian kernels are covariant under "
+         "transposition (xc↔yc, θ→π/2−θ) and mirroring (xc→N−1−xc, θ→−θ); the pixel renderer's whole intrinsic image is transposed by "
+         "transposing the scene and, for even N, mirrored by mirroring it (oversampling box symmetric under transposition, under mirroring exactly "
+         "for even N — counter-example for odd N proved; Gauss–Legendre rule symmetric as a hypothesis checked on the real data); a whole-pixel move "
+         "of a Fourier-rendered point or Sersic source is an exact shift of the PSF-convolved image through the DFT synthesis model, for every PSF "
+         "and image size (negative-frequency rows differ by whole turns). Not proved, observed only: the discretely synthesised Fourier image under "
+         "transposition/mirroring (the c2r transform drops Nyquist imaginary parts) and all float32 tolerances — run on the real code as the oracle "
+         "with the property's domain and tolerances. Tie: shared render correspondence."),
+   note=NOTE + "C09: two genuine defects found by this check and fixed in /repo (3.1415 literal in the PSF ramps; transposed, half-pixel-shifted pixel point source).",
+   technique="Lean 4 theorems (trigonometric/algebraic symmetry identities, sum exchange, DFT shift theorem termwise) + render correspondence + float32 transformed-pair oracle",
+   design="7/C09"),
 }
 
 checks, na = [], []
